@@ -729,7 +729,7 @@ def witnesses(ctx):
 
 # --------------------------------------------------------------------------
 def run(ctx):
-    npairs = 6000 if ctx.thorough else 900
+    npairs = 4000 if ctx.thorough else 600
     nopts = 10 if ctx.thorough else 8
     nw = core.NCPU
     per = (npairs + nw - 1) // nw
